@@ -108,7 +108,7 @@ def r13_quota(ctx):
     for ri in rules(ctx):
         f = ri.count
         forced = _forced_arithmetic(ctx, ri)
-        cq = ri.helpers.get('calcQuota')
+        cq = ri.helper(ctx, 'calcQuota')
         sites = []       # (func, expr node, anchor)
         if cq is not None:
             for r in [n for n in cq.own_nodes() if isinstance(n, ast.Return) and n.value is not None]:
@@ -157,7 +157,7 @@ def r13_quota(ctx):
                       '`%s` on the %s branch' % (unparse(expr), ex), 'on the %s branch the quota is `%s`' % (ex, unparse(expr)))
         # (b) comparison used for election agrees with exactness
         qp = None
-        hq = ri.helpers.get('hasQuota')
+        hq = ri.helper(ctx, 'hasQuota')
         cmps = []
         if hq is not None:
             for r in [n for n in hq.own_nodes() if isinstance(n, ast.Return) and isinstance(n.value, ast.Compare)]:
